@@ -1,10 +1,306 @@
-(** C16 -- spectral polynomial calculus is exact on the polynomial space of the grid. *)
-From Coq Require Import Reals List Lra Lia Bool Arith.
-From WG Require Import Lib.Lagrange Lib.Cheb Lib.Spectral.
+(** C16 -- spectral polynomial calculus is exact on the polynomial space of the grid.
+
+    Three layers.
+    (1) GenC16.PolyCfg: facts regenerated from src/WallGo/polynomial.py on this run by
+        tools/gen_poly.py (which index range / restriction / rows / weights every method
+        uses for every direction and end-point flag, for changeBasis on a rank-2 object for
+        every ordered pair of axis kinds).  Section 1 proves that they coincide with the
+        hand-written model Lib.Spectral and that they are mutually consistent.
+    (2) Lib.Spectral: the model of the Polynomial class (one definition, executed over
+        rationals against the running implementation, reasoned about over R here).
+    (3) Lib.Lagrange / Lib.Cheb / Lib.Quadrature: the mathematics, for ARBITRARY distinct
+        nodes and ALL sizes.
+    External numerics: np.linalg.inv (hypothesis of [change_basis_roundtrip]); everything
+    else in this class is closed-form. *)
+From Coq Require Import Reals List Lra Lia Bool Arith ZArith.
+From Coquelicot Require Import Coquelicot.
+From WG Require Import Lib.Lagrange Lib.Cheb Lib.Spectral Lib.Quadrature.
+From GenC16 Require Import PolyCfg.
 Import ListNotations.
 Local Open Scope R_scope.
 
+(** * 1. the facts extracted from the source are the model's, and are consistent *)
+Definition cfg_same (a b : axcfg) : Prop :=
+  c_lo a = c_lo b /\ c_hi a = c_hi b /\ c_restr a = c_restr b.
+
+Lemma gen_ranges d ep M N size : sizes_ok d M N ->
+  cfg_same (gen_evalCard d ep M N) (cfg_evalCard d ep M N) /\
+  cfg_same (gen_evalCheb d ep M N) (cfg_evalCheb d ep M N) /\
+  cfg_same (gen_chebMatrix d ep size) (cfg_chebMatrix d ep size) /\
+  cfg_same (gen_chebDeriv d ep size) (cfg_chebDeriv d ep size) /\
+  gen_cardDeriv_rows d ep = trim_rows d ep /\
+  gen_int_div d ep M N = wdiv d M N /\
+  gen_int_halved d ep = int_halved d ep.
+Proof.
+  intro HS. unfold cfg_same.
+  destruct d, ep; cbn in *; repeat split; try reflexivity; lia.
+Qed.
+Theorem generated_index_ranges_match_model : forall d ep M N size, sizes_ok d M N ->
+  cfg_same (gen_evalCard d ep M N) (cfg_evalCard d ep M N) /\
+  cfg_same (gen_evalCheb d ep M N) (cfg_evalCheb d ep M N) /\
+  cfg_same (gen_chebMatrix d ep size) (cfg_chebMatrix d ep size) /\
+  cfg_same (gen_chebDeriv d ep size) (cfg_chebDeriv d ep size) /\
+  gen_cardDeriv_rows d ep = trim_rows d ep /\
+  gen_int_div d ep M N = wdiv d M N /\
+  gen_int_halved d ep = int_halved d ep.
+Proof. exact gen_ranges. Qed.
+Print Assumptions generated_index_ranges_match_model.
+
+(** changeBasis on a rank-2 object: what is used for an axis depends on THAT axis only
+    (per-axis independence of the basis change, also for mixed end-point tuples) *)
+Lemma gen_cb d1 e1 d2 e2 M N :
+  cfg_same (gen_changeBasis_first d1 e1 d2 e2 M N) (cfg_changeBasis d1 e1 M N) /\
+  cfg_same (gen_changeBasis_second d1 e1 d2 e2 M N) (cfg_changeBasis d2 e2 M N).
+Proof.
+  unfold cfg_same.
+  destruct d1, e1, d2, e2; cbn; repeat split; try reflexivity; lia.
+Qed.
+Theorem changeBasis_axis_independent : forall d1 e1 d2 e2 M N,
+  cfg_same (gen_changeBasis_first d1 e1 d2 e2 M N) (cfg_changeBasis d1 e1 M N) /\
+  cfg_same (gen_changeBasis_second d1 e1 d2 e2 M N) (cfg_changeBasis d2 e2 M N).
+Proof. exact gen_cb. Qed.
+Print Assumptions changeBasis_axis_independent.
+
+(** the restricted functions and the derivative entries the source computes *)
+Lemma gen_fun {T} (O : Ops T) x n r d ep :
+  gen_chebyshev O x n r = chebyshev O x n r /\
+  gen_chebyshevDeriv O x n d ep = chebyshevDeriv O x n (full_restr d) ep.
+Proof.
+  split.
+  - destruct r; unfold gen_chebyshev, chebyshev; try reflexivity;
+      destruct (Nat.even n); reflexivity.
+  - destruct d, ep; unfold gen_chebyshevDeriv, chebyshevDeriv; cbn; reflexivity.
+Qed.
+Theorem generated_functions_match_model : forall T (O : Ops T) x n r d ep,
+  gen_chebyshev O x n r = chebyshev O x n r /\
+  gen_chebyshevDeriv O x n d ep = chebyshevDeriv O x n (full_restr d) ep.
+Proof. intros. apply gen_fun. Qed.
+Print Assumptions generated_functions_match_model.
+
+(** model-free consistency of the extracted facts: the odd-n correction of
+    _chebyshevDeriv is applied exactly when the basis that changeBasis / evaluate /
+    _chebyshevMatrix use for the same axis kind is the fully restricted one, and all four
+    methods use the same Chebyshev orders *)
+Lemma gen_consistent d ep M N : sizes_ok d M N ->
+  (gen_chebDeriv_corr d ep = true <-> c_restr (gen_changeBasis_second d ep d ep M N) = RFull) /\
+  c_restr (gen_evalCheb d ep M N) = c_restr (gen_changeBasis_second d ep d ep M N) /\
+  c_restr (gen_chebMatrix d ep 0) = c_restr (gen_changeBasis_second d ep d ep M N) /\
+  cfg_range (gen_evalCheb d ep M N) = cfg_range (gen_changeBasis_second d ep d ep M N) /\
+  cfg_range (gen_chebDeriv d ep (gsize d M N)) = cfg_range (gen_changeBasis_second d ep d ep M N) /\
+  cfg_range (gen_chebMatrix d ep (gsize d M N - fst (gen_cardDeriv_rows d ep) - snd (gen_cardDeriv_rows d ep)))
+    = cfg_range (gen_changeBasis_second d ep d ep M N).
+Proof.
+  intro HS. unfold cfg_range, arange.
+  destruct d, ep; cbn in *; repeat split; try reflexivity; try discriminate;
+    try (f_equal; lia).
+Qed.
+Theorem derivative_correction_consistent_with_basis : forall d ep M N, sizes_ok d M N ->
+  (gen_chebDeriv_corr d ep = true <-> c_restr (gen_changeBasis_second d ep d ep M N) = RFull) /\
+  c_restr (gen_evalCheb d ep M N) = c_restr (gen_changeBasis_second d ep d ep M N) /\
+  c_restr (gen_chebMatrix d ep 0) = c_restr (gen_changeBasis_second d ep d ep M N) /\
+  cfg_range (gen_evalCheb d ep M N) = cfg_range (gen_changeBasis_second d ep d ep M N) /\
+  cfg_range (gen_chebDeriv d ep (gsize d M N)) = cfg_range (gen_changeBasis_second d ep d ep M N) /\
+  cfg_range (gen_chebMatrix d ep (gsize d M N - fst (gen_cardDeriv_rows d ep) - snd (gen_cardDeriv_rows d ep)))
+    = cfg_range (gen_changeBasis_second d ep d ep M N).
+Proof. exact gen_consistent. Qed.
+Print Assumptions derivative_correction_consistent_with_basis.
+
+(** * 2. cardinal functions, interpolation, derivative matrix: arbitrary distinct nodes *)
 Theorem cardinal_delta : forall grid xn xm, In xm grid ->
   cardinal ROps grid xn xm = if Req_EM_T xn xm then 1 else 0.
 Proof. exact cardinal_delta_R. Qed.
 Print Assumptions cardinal_delta.
+
+Theorem roots_bound_thm : forall (rs a : list R),
+  NoDup rs -> (length a <= length rs)%nat -> (forall r, In r rs -> pev a r = 0) ->
+  forall x, pev a x = 0.
+Proof. exact roots_bound. Qed.
+Print Assumptions roots_bound_thm.
+
+(** degree <= n on n+1 distinct nodes is reproduced at EVERY x *)
+Theorem interp_exact : forall grid a,
+  NoDup grid -> (length a <= length grid)%nat ->
+  forall x, interp grid grid (pev a) x = pev a x.
+Proof. exact interp_exact_R. Qed.
+Print Assumptions interp_exact.
+
+(** with dropped boundary points, for polynomials vanishing there *)
+Theorem interp_exact_dropped_points : forall grid sel f,
+  NoDup grid -> NoDup sel -> incl sel grid -> is_poly (length grid) f ->
+  (forall g, In g grid -> ~ In g sel -> f g = 0) ->
+  forall x, interp grid sel f x = f x.
+Proof. exact interp_exact_fn. Qed.
+Print Assumptions interp_exact_dropped_points.
+
+(** every entry of the matrix _cardinalDeriv builds is the derivative of a cardinal
+    function at a node (diagonal and off-diagonal formulas) *)
+Theorem cardinal_deriv_entries : forall grid xi xj,
+  NoDup grid -> In xj grid ->
+  derivable_pt_lim (cardinal ROps grid xi) xj (cd_entry ROps grid xi xj).
+Proof. exact cd_entry_is_derivative. Qed.
+Print Assumptions cardinal_deriv_entries.
+
+(** deriv_matrix_exact: for every direction and end-point flag, the model's
+    _cardinalDeriv applied to the grid values gives the exact derivative at ALL points of
+    the complete grid, boundaries included (z, pz: both ends dropped; pp: the half-open
+    grid) *)
+Theorem deriv_matrix_exact : forall d ep grid f f',
+  NoDup grid -> is_poly (length grid) f ->
+  (forall g, In g grid -> ~ In g (trim d ep grid) -> f g = 0) ->
+  (forall x, derivable_pt_lim f x (f' x)) ->
+  omatvec ROps (cardinalDeriv ROps d ep grid) (map f (trim d ep grid)) = map f' grid.
+Proof. exact cardinalDeriv_exact_R. Qed.
+Print Assumptions deriv_matrix_exact.
+
+Theorem deriv_matrix_exact_poly : forall grid sel a xj,
+  NoDup grid -> NoDup sel -> incl sel grid -> (length a <= length grid)%nat ->
+  (forall g, In g grid -> ~ In g sel -> pev a g = 0) -> In xj grid ->
+  Rsum (map (fun xi => cd_entry ROps grid xi xj * pev a xi) sel) = pev (pder a) xj.
+Proof. exact deriv_matrix_exact_R. Qed.
+Print Assumptions deriv_matrix_exact_poly.
+
+(** * 3. Chebyshev side *)
+Theorem cheb_cos_thm : forall n t, TR n (cos t) = cos (INR n * t).
+Proof. exact cheb_cos. Qed.
+Print Assumptions cheb_cos_thm.
+
+Theorem cheb_deriv_thm : forall n x, derivable_pt_lim (TR n) x (INR n * Um1R n x).
+Proof. exact cheb_deriv. Qed.
+Print Assumptions cheb_deriv_thm.
+
+Theorem restricted_vanish : forall n,
+  gen_chebyshev ROps 1 n RFull = 0 /\ gen_chebyshev ROps (-1) n RFull = 0 /\
+  gen_chebyshev ROps 1 n RPartial = 0.
+Proof.
+  intro n. rewrite !(proj1 (gen_fun ROps _ n _ Dz true)).
+  destruct (restricted_full_vanish n) as [A B]. repeat split; try assumption.
+  apply restricted_partial_vanish.
+Qed.
+Print Assumptions restricted_vanish.
+
+(** the entries of _chebyshevDeriv (as extracted) are the derivatives of the basis
+    functions that the same axis kind uses everywhere else *)
+Theorem cheb_deriv_entries : forall d ep n x,
+  derivable_pt_lim (fun y => gen_chebyshev ROps y n (eff_restr d ep)) x
+                   (gen_chebyshevDeriv ROps x n d ep).
+Proof.
+  intros d ep n x. rewrite (proj2 (gen_fun ROps x n RNone d ep)).
+  apply (derivable_pt_lim_ext (fun y => chebyshev ROps y n (eff_restr d ep))).
+  - intro y. symmetry. apply (proj1 (gen_fun ROps y n (eff_restr d ep) d ep)).
+  - apply chebyshevDeriv_entry_R.
+Qed.
+Print Assumptions cheb_deriv_entries.
+
+(** derivative in the Chebyshev representation: exact at every point of the complete grid *)
+Theorem cheb_deriv_matrix_exact : forall d ep M N grid c,
+  length grid = gsize d M N -> sizes_ok d M N ->
+  Forall2 (fun xj dj => derivable_pt_lim (chebFun d ep M N c) xj dj)
+          grid (omatvec ROps (chebyshevDerivM ROps d ep grid) c).
+Proof. exact chebyshevDeriv_exact_R. Qed.
+Print Assumptions cheb_deriv_matrix_exact.
+
+(** evaluate_agrees: Chebyshev evaluation of c = cardinal evaluation of tnMatrix c, at
+    every x, for every direction / end-point flag (needs the dropped points to be +-1) *)
+Theorem evaluate_agrees : forall d ep M N grid c x,
+  grid_ok d M N grid -> sizes_ok d M N ->
+  odot ROps (evalRow ROps Chebyshev d ep grid M N x) c =
+  odot ROps (evalRow ROps Cardinal d ep grid M N x)
+       (omatvec ROps (tnMatrix ROps d ep grid M N) c).
+Proof. exact evaluate_agrees_R. Qed.
+Print Assumptions evaluate_agrees.
+
+(** grid values at grid points *)
+Theorem evaluate_at_grid_point : forall grid sel v xm,
+  NoDup sel -> In xm sel -> incl sel grid ->
+  odot ROps (map (fun xn => cardinal ROps grid xn xm) sel) (map v sel) = v xm.
+Proof. exact evaluate_at_node_R. Qed.
+Print Assumptions evaluate_at_grid_point.
+
+(** the cardinal indices of evaluate select the nodes of getCompactCoordinates *)
+Theorem evaluate_indices_are_nodes : forall d ep (grid : list R) M N,
+  length grid = gsize d M N -> sizes_ok d M N ->
+  map (fun n => nth n grid 0) (cfg_range (gen_evalCard d ep M N)) = pyslice (gen_cardDeriv_rows d ep) grid.
+Proof.
+  intros d ep grid M N L HS.
+  destruct (gen_ranges d ep M N 0%nat HS) as [[A [B _]] [_ [_ [_ [E _]]]]].
+  rewrite E, <- trim_pyslice, <- (evalCard_nodes d ep grid M N L HS).
+  unfold cfg_range. now rewrite A, B.
+Qed.
+Print Assumptions evaluate_indices_are_nodes.
+
+(** change of basis round trip.  External: np.linalg.inv -- hypothesis [Hinv]: the matrix
+    it returns is a left and right inverse as a linear map on vectors of the right length
+    (validated at run time: forward model matrix applied to the implementation's output) *)
+Section RoundTrip.
+Variable Tm Tinv : list (list R).
+Variable size : nat.
+Hypothesis Hinv_l : forall c, length c = size -> omatvec ROps Tinv (omatvec ROps Tm c) = c.
+Hypothesis Hinv_r : forall v, length v = size -> omatvec ROps Tm (omatvec ROps Tinv v) = v.
+Hypothesis Hrows : length Tm = size /\ length Tinv = size.
+Lemma roundtrip :
+  (forall c, length c = size ->
+     omatvec ROps Tinv (omatvec ROps Tm c) = c /\ length (omatvec ROps Tm c) = size) /\
+  (forall v, length v = size ->
+     omatvec ROps Tm (omatvec ROps Tinv v) = v /\ length (omatvec ROps Tinv v) = size).
+Proof.
+  destruct Hrows as [A B]. split; intros c L; (split; [auto|]);
+    unfold omatvec; now rewrite map_length.
+Qed.
+End RoundTrip.
+Theorem change_basis_roundtrip_partial : forall Tm Tinv size,
+  (forall c, length c = size -> omatvec ROps Tinv (omatvec ROps Tm c) = c) ->
+  (forall v, length v = size -> omatvec ROps Tm (omatvec ROps Tinv v) = v) ->
+  length Tm = size /\ length Tinv = size ->
+  (forall c, length c = size ->
+     omatvec ROps Tinv (omatvec ROps Tm c) = c /\ length (omatvec ROps Tm c) = size) /\
+  (forall v, length v = size ->
+     omatvec ROps Tm (omatvec ROps Tinv v) = v /\ length (omatvec ROps Tinv v) = size).
+Proof. exact roundtrip. Qed.
+Print Assumptions change_basis_roundtrip_partial.
+(* missing for the full statement [basis_matrix_invertible]: tnMatrix c = 0 -> c = 0
+   (linear independence of the restricted T_n on the Gauss-Lobatto nodes).  The part that
+   is proved: tnMatrix c are the values of a polynomial of admissible degree vanishing at
+   the dropped points (chebFun_is_poly, chebFun_vanish) and a polynomial with that many
+   roots is identically zero (roots_bound). *)
+
+(** linearity *)
+Theorem matrix_action_linear : forall (r a b : list R) k, length a = length b ->
+  odot ROps r (map (fun p => k * fst p + snd p) (combine a b)) = k * odot ROps r a + odot ROps r b.
+Proof. exact odot_linear. Qed.
+Print Assumptions matrix_action_linear.
+
+(** axis-wise action of the nested-list operators *)
+Theorem axiswise : forall T (O : Ops T) i m r l,
+  apply_axis O (S i) m (Vec l) = Vec (map (apply_axis O i m) l) /\
+  contract_axis O (S i) r (Vec l) = Vec (map (contract_axis O i r) l).
+Proof. intros. split; reflexivity. Qed.
+Print Assumptions axiswise.
+
+(** * 4. Gauss-Chebyshev-Lobatto quadrature *)
+Theorem gcl_cos_sum_thm : forall n m : nat, (1 <= n)%nat -> (1 <= m <= 2 * n - 1)%nat ->
+  sum_pp (fun k => cos (INR m * (INR k * PI / INR n))) n = 0.
+Proof. exact gcl_cos_sum. Qed.
+Print Assumptions gcl_cos_sum_thm.
+
+(** (pi/n) sum'' g(k pi/n) = int_0^pi g for every trigonometric polynomial of degree <= 2n-1 *)
+Theorem gcl_exact_thm : forall n a, (1 <= n)%nat -> (length a <= 2 * n)%nat ->
+  is_RInt (trigpoly a) 0 PI (PI / INR n * sum_pp (fun k => trigpoly a (INR k * PI / INR n)) n).
+Proof. exact gcl_exact. Qed.
+Print Assumptions gcl_exact_thm.
+
+(** the code's rule: summand sqrt(1-x_k^2) F(x_k) with F = sqrt(1-x^2) q, q of degree
+    <= 2n-3 (given by its Chebyshev expansion): exact, with halved OR unhalved end weights *)
+Theorem gcl_weighted_exact_thm : forall n b, (2 <= n)%nat -> (length b <= 2 * n - 2)%nat ->
+  is_RInt (fun t => sin t ^ 2 * trigpoly b t) 0 PI
+          (PI / INR n * sum_pp (fun k => sin (INR k * PI / INR n) ^ 2 * trigpoly b (INR k * PI / INR n)) n) /\
+  is_RInt (fun t => sin t ^ 2 * trigpoly b t) 0 PI
+          (PI / INR n * sum_f_R0 (fun k => sin (INR k * PI / INR n) ^ 2 * trigpoly b (INR k * PI / INR n)) n).
+Proof. intros. split; [now apply gcl_weighted_exact|now apply gcl_weighted_exact_plain]. Qed.
+Print Assumptions gcl_weighted_exact_thm.
+
+(** non-vacuity: a concrete well-formed grid (M = 2: nodes -1, 0, 1) *)
+Example grid_ok_example : grid_ok Dz 2 3 [-1; 0; 1] /\ sizes_ok Dz 2 3.
+Proof.
+  unfold grid_ok, sizes_ok. repeat split; try reflexivity; try lia.
+  repeat constructor; cbn; intros H; repeat destruct H as [H|H]; try lra; try contradiction.
+Qed.
